@@ -7,6 +7,29 @@ from pathlib import Path
 VERIF = Path(__file__).resolve().parents[1]
 
 CHECKS = {
+    "C17": dict(
+        category="exploration", design_ref="DESIGN.md §2 C17",
+        technique="process-wide audit-hook containment monitor + sentinel-tree fingerprint + independent path classifier over an exhaustive path grammar x entry points x root spellings, and tampered-table scans/collections",
+        text="Every path string of depth <=3 (quick) / <=4 (thorough) over 9 components (with and without leading '/'), "
+             "plus absolute sentinel/decoy paths, is passed to 22 entry points on a table opened directly and through a "
+             "symlink, inside an arena holding a sibling-prefix table, outside sentinels and in-table symlinks to inside, "
+             "outside dir, outside file and sibling. A sys.addaudithook monitor records every open/remove/rename/"
+             "listdir/mkdir... whose canonical target is outside the canonical root (or a decoy); the sentinel tree is "
+             "fingerprinted around every call; strings an independent classifier marks escaping must raise. Tampered "
+             "manifest entries / manifest paths / manifest_list / marker payloads / listings are scanned and collected.",
+        note="Opens inside pyarrow's C++ are invisible to audit hooks (the directory is chosen by monitored Python code).",
+    ),
+    "C20": dict(
+        category="exploration", design_ref="DESIGN.md §2 C20",
+        technique="differential execution local vs S3-on-double per operation; range-reader vs local-file differential over enumerated seek/read programs with Range-header oracle; enumerated retry fault prefixes with attempt counting",
+        text="(a) random op programs over 12 colliding keys and 11 list prefixes are run op by op on both backends and "
+             "compared (bytes, exact-key existence, listings as sets confined to the directory, sizes, not-found). (b) all "
+             "seek/read/readinto/readall/tell programs of <=2 (quick) / <=3 (thorough) steps + random longer ones over 6 "
+             "boundary sizes, bare and buffered, against a local file; every Range header must be in range. (c) for 12 S3 "
+             "request kinds: 0..7 transient failures of 4 kinds and permanent errors after 0..5 transients; result and "
+             "attempt count must follow the retry contract; write_file_cas stays single-attempt.",
+        note="Directory existence, lock artefacts and mtime values are outside the compared contract.",
+    ),
     "C18": dict(
         category="exploration", design_ref="DESIGN.md §2 C18",
         technique="controlled scheduling of creator/opener/first-appender threads over 4 initial states and 2 backends; identity/schema/rows oracle by an independent reader",
